@@ -6,6 +6,7 @@ package main
 
 import (
 	"bufio"
+	"math/big"
 	"encoding/json"
 	"flag"
 	"fmt"
@@ -16,6 +17,7 @@ import (
 	"github.com/taurusgroup/multi-party-sig/pkg/ecdsa"
 	"github.com/taurusgroup/multi-party-sig/pkg/party"
 	"github.com/taurusgroup/multi-party-sig/pkg/protocol"
+	"github.com/taurusgroup/multi-party-sig/protocols/doerner"
 	"github.com/taurusgroup/multi-party-sig/verifharness/fault"
 	"github.com/taurusgroup/multi-party-sig/verifharness/judge"
 	"github.com/taurusgroup/multi-party-sig/verifharness/oracle"
@@ -50,6 +52,8 @@ type Scenario struct {
 	Who    string            `json:"who"`   // stop: party
 	After  int               `json:"after"` // stop: number of deliveries before Stop
 	Cross  bool              `json:"cross"` // equiv: also deliver the other universe's later messages
+	Variant string           `json:"variant"` // presigncheat: offline | full | online
+	Rule   string            `json:"rule"`  // presigncheat: delta | gamma | x-chi | chi (offline, full); k | chi (online)
 	Diff   string            `json:"diff"`  // foreign: the one parameter in which the other session differs
 	From   string            `json:"from"`  // relabel: the real sender whose message is replayed under Byz's name
 }
@@ -105,6 +109,8 @@ func getSetup(proto string, n, t int, seed string) *setup {
 		s.cfgs = runKG(protos.FrostKeygen(s.ids, t, false, []byte("kg")))
 	case "taproot-sign", "taproot-refresh":
 		s.cfgs = runKG(protos.FrostKeygen(s.ids, t, true, []byte("kg")))
+	case "doerner-sign", "doerner-refresh":
+		s.cfgs = runKG(protos.DoernerKeygen(s.ids[0], s.ids[1], []byte("kg")))
 	case "cmp-sign", "cmp-refresh", "cmp-presign", "cmp-presign-online":
 		s.cfgs = protos.DealCmp(s.ids, t, seed+key)
 	}
@@ -155,6 +161,12 @@ func (s *setup) session(sid []byte) *protos.Session {
 		return protos.FrostRefresh(s.cfgs, sid)
 	case s.proto == "frost-sign", s.proto == "taproot-sign":
 		return protos.FrostSign(s.cfgs, s.ids, s.msg, sid)
+	case s.proto == "doerner-keygen":
+		return protos.DoernerKeygen(s.ids[0], s.ids[1], sid)
+	case s.proto == "doerner-refresh":
+		return protos.DoernerRefresh(s.ids[0], s.ids[1], s.cfgs[s.ids[0]].(*doerner.ConfigReceiver), s.cfgs[s.ids[1]].(*doerner.ConfigSender), sid)
+	case s.proto == "doerner-sign":
+		return protos.DoernerSign(s.ids[0], s.ids[1], s.cfgs[s.ids[0]].(*doerner.ConfigReceiver), s.cfgs[s.ids[1]].(*doerner.ConfigSender), s.msg, sid)
 	case s.proto == "cmp-keygen":
 		return protos.CmpKeygen(s.ids, s.t, sid)
 	case s.proto == "cmp-refresh":
@@ -263,6 +275,8 @@ func run(sc Scenario, seed string) (outcome, []sim.Event) {
 		r.fault(sess, label)
 	case "stop", "honest":
 		r.stop(sess, label)
+	case "presigncheat":
+		r.presignCheat(label, seed)
 	case "foreign":
 		r.foreign(sess, label, seed)
 	case "relabel":
@@ -331,7 +345,16 @@ func run(sc Scenario, seed string) (outcome, []sim.Event) {
 			}
 			views[f.id] = v
 		}
-		if bad == "" {
+		if bad == "" && strings.HasPrefix(su.proto, "doerner") {
+			// two-party additive sharing: if both honest parties finished their shares must sum to the common key
+			if len(done) == 2 {
+				a, b := views[done[0].id], views[done[1].id]
+				sum := new(big.Int).Add(a.Secret, b.Secret)
+				if !oracle.Equal(a.Group, b.Group) || !oracle.Equal(oracle.BaseMul(sum), a.Group) {
+					bad = "the two finishers' shares do not combine to one common public key"
+				}
+			}
+		} else if bad == "" {
 			// same group key and table among finishers, own share matches table
 			var first *judge.KeyView
 			for _, f := range done {
@@ -704,6 +727,61 @@ func (r *runner) fault(sess *protos.Session, label func(party.ID) string) {
 }
 
 func sess2(su *setup) *protos.Session { return su.session([]byte("sid")) }
+
+// presignCheat: one presigner deviates at state level (its proofs pass); every honest signer must single it out.
+func (r *runner) presignCheat(label func(party.ID) string, seed string) {
+	e := r.e
+	e.Log = false // the abort rounds have their own shape; judged by the predicates below only
+	su := r.su
+	cfgs := protos.CloneConfigs(su.cfgs)
+	var sess *protos.Session
+	switch r.sc.Variant {
+	case "offline":
+		sess = protos.CmpPresignCheat(cfgs, su.ids, nil, r.byz, r.sc.Rule, []byte("sid"))
+	case "full":
+		sess = protos.CmpPresignCheat(cfgs, su.ids, su.msg, r.byz, r.sc.Rule, []byte("sid"))
+	case "online":
+		pr, err := protos.Run(protos.CmpPresign(protos.CloneConfigs(su.cfgs), su.ids, []byte("pre")), protos.RunOpts{Seed: seed + "/pre/" + label("x")})
+		if err != nil || !pr.AllDone() {
+			r.out.Applicable = false
+			r.out.Why = "honest presigning failed"
+			return
+		}
+		pres := map[party.ID]*ecdsa.PreSignature{}
+		for id, x := range pr.Results {
+			pres[id] = x.(*ecdsa.PreSignature)
+		}
+		bad, err := protos.TamperPreSignature(pres[r.byz], r.sc.Rule)
+		if err != nil {
+			fatal("%v", err)
+		}
+		pres[r.byz] = bad
+		sess = protos.CmpPresignOnline(cfgs, pres, su.ids, su.msg, []byte("sid"))
+	default:
+		fatal("unknown presign variant %q", r.sc.Variant)
+	}
+	// abort notices are not delivered, so that every honest signer reaches its own verdict
+	e.OnEmit = func(inst party.ID, m *protocol.Message) bool { return m.RoundNumber != 0 }
+	for _, id := range su.ids {
+		e.AddParty(id, r.newParty(sess, id, label(id)))
+	}
+	r.loop(nil)
+	r.out.Reached = true
+	for _, id := range r.honest {
+		st := e.Parties[id].Status()
+		desc := fmt.Sprintf("%s presign, cheater %s deviates in %s: honest signer %s ends %s", r.sc.Variant, r.byz, r.sc.Rule, id, st.St)
+		switch st.St {
+		case "done":
+			r.violate("C04", "cheater-not-identified", desc+" (completed although a contribution was inconsistent)", "")
+		case "run":
+			r.violate("C04", "cheater-not-identified", desc+" (still waiting: the identification round never finished)", "")
+		case "err":
+			if len(st.Culprits) != 1 || st.Culprits[0] != r.byz {
+				r.violate("C04", "cheater-not-identified", fmt.Sprintf("%s with culprits %v (%v); expected exactly [%s]", desc, st.Culprits, st.Err, r.byz), "")
+			}
+		}
+	}
+}
 
 // otherSession builds a session that differs from the observed one (sid "sid") in exactly one parameter.
 func (r *runner) otherSession(seed string) (*protos.Session, string) {
